@@ -865,6 +865,10 @@ impl<const M: usize> Drv<M> {
         let forced = self.force_tw.take();
         let (combo, fallible, ok, nested) = match forced { Some((c, f, o)) => (c, f, o, false), None => (combo, fallible, ok, nested) };
         let quiet_inner = forced.is_some();
+        // uniform histories: a third of the initialisers reserve a Result whose error type is aligned
+        // above the history's alignment and fail, so that nothing of it may stay behind (C10)
+        let over = forced.is_none() && self.uniform != 0 && self.uniform < 16 && self.rng.chance(1, 3);
+        let ok = ok && !over;
         macro_rules! go {
             ($t:ty, $e:ty) => {{
                 let lay = Layout::new::<Result<$t, $e>>();
@@ -935,7 +939,7 @@ impl<const M: usize> Drv<M> {
                             self.line("K bad error value not handed back intact");
                         }
                         self.end(&desc2, &Res::Err);
-                        if inner_ops == 0 && depth == 0 {
+                        if inner_ops == 0 && depth == 0 && !over {
                             // C11: the initialiser allocated nothing, so the same layout must now be
                             // served without asking the global allocator
                             let d = format!("alloc {} {} 1 probe_c11", lay.size(), lay.align());
@@ -966,6 +970,15 @@ impl<const M: usize> Drv<M> {
         }
         if self.uniform != 0 {
             // Result<T, T> with T an unsigned integer of the history's alignment: size 2*A, align A
+            if over {
+                match self.uniform {
+                    1 => if self.rng.chance(1, 2) { go!(u8, u32) } else { go!(u8, u128) },
+                    2 => go!(u16, u64),
+                    4 => go!(u32, u64),
+                    _ => go!(u64, u128),
+                }
+                return;
+            }
             match self.uniform {
                 1 => go!(u8, u8),
                 2 => go!(u16, u16),
